@@ -3,7 +3,7 @@
 import json, os, shutil, sys
 for a in sys.argv[1:]:
     prop, var = a.split("/")
-    src = "/tmp/benign_out/%s/%s" % (prop, var)
+    src = "%s/%s/%s" % (os.environ.get("BENIGN_ROOT", "/tmp/benign_out"), prop, var)
     dst = "/verif/benign/%s%s" % (prop, var)
     if not os.path.exists(src + "/patch.diff"):
         print("missing", src); continue
